@@ -205,6 +205,53 @@ func runC05(tier string) int {
 	if !sharedDone {
 		r.NotExhaustive("shared-operand conditions not completed")
 	}
+	// Conditions of every operand kind under negation and grouping (every tree with <= 2 leaves, leaf forms rotating over all
+	// 34, every decoration of <= 2 nodes), as the condition of an if in the layouts in which the optimizer lets the body
+	// follow its test directly: alone, with an else, and as the last statement of a switch case, of a while body and of a
+	// do...while body
+	type decoJob struct {
+		tree *model.Cond
+		f0   int
+	}
+	var djobs []decoJob
+	maxDecoK := 2
+	if tier == "thorough" {
+		maxDecoK = 3
+	}
+	for k := 1; k <= maxDecoK; k++ {
+		for _, t := range model.CondShapes(k) {
+			for f0 := 0; f0 < model.NumLeafForms; f0++ {
+				djobs = append(djobs, decoJob{t, f0})
+			}
+		}
+	}
+	decoDone := r.Parallel(uint64(len(djobs)), func(w int, idx uint64) {
+		j := djobs[idx]
+		model.ForEachDeco(model.CountNodes(j.tree), 2, func(deco []uint8) {
+			for layout := 0; layout < 5; layout++ {
+				cond := model.Decorate(j.tree, deco, func(i int) *model.Leaf { return model.LeafForm((j.f0+i*7)%model.NumLeafForms, i+1) })
+				ifst := model.Stmt{Kind: model.SIf, Arms: []model.Arm{{Cond: cond, Body: []model.Stmt{mcmd("inbody")}}}}
+				var body []model.Stmt
+				switch layout {
+				case 0:
+					body = []model.Stmt{mcmd("a"), ifst, mcmd("after")}
+				case 1:
+					ifst.HasElse, ifst.Else = true, []model.Stmt{mcmd("inelse")}
+					body = []model.Stmt{mcmd("a"), ifst, mcmd("after")}
+				case 2:
+					body = []model.Stmt{{Kind: model.SSwitch, Operand: mvar("XS"), Cases: []model.Case{{Val: 1, Body: []model.Stmt{ifst}}, {Val: 2, Body: []model.Stmt{mcmd("two")}}}}, mcmd("after")}
+				case 3:
+					body = []model.Stmt{{Kind: model.SWhile, Cond: mflag("LW"), Body: []model.Stmt{mcmd("w"), ifst}}, mcmd("after")}
+				default:
+					body = []model.Stmt{{Kind: model.SDoWhile, Cond: mflag("LD"), Body: []model.Stmt{mcmd("w"), ifst}}, mcmd("after")}
+				}
+				evalProgram(w, engineProgram{Script: &model.Script{Name: "S", Body: body}, Desc: fmt.Sprintf("decorated condition %q, layout %d", model.CondString(cond), layout)})
+			}
+		})
+	})
+	if !decoDone {
+		r.NotExhaustive("decorated conditions not completed")
+	}
 	// Files with hoisted data and several statement kinds: same hoisted data and user-visible labels in both forms.
 	anyChunk := regexp.MustCompile(`^[A-Za-z0-9_]+_[0-9]+$`)
 	evalFile := func(fp *fileProgram) {
